@@ -139,7 +139,7 @@ Section Sim.
   (* ---- nested_render_text ---- *)
   Lemma sim_nested rr rd : simrel rr rd ->
     forall top s text lineno inline ho ns h, good top s ->
-      den_nested env orc rd top (shr s) text lineno inline ho = Ok (ns, h, false) ->
+      den_nested env orc rd top (hoff s) (shr s) text lineno inline ho = Ok (ns, h, false) ->
       nested_render_text env orc rr s text lineno inline None ho = ext s ns h.
   Proof.
     intros Hsim top s text lineno inline ho ns h Hg H.
@@ -147,7 +147,8 @@ Section Sim.
     destruct (if inline then o_PI orc (s_env (shr s)) text
               else o_P orc (s_env (shr s)) (text ++ nl)) as [toks0 e'].
     unfold render_tokens_.
-    set (s3 := set_hoff ho (set_shr (set_env e' (shr s)) s)).
+    change (hoff (set_shr (set_env e' (shr s)) s)) with (hoff s).
+    set (s3 := set_hoff (hoff s + ho) (set_shr (set_env e' (shr s)) s)).
     assert (Hg3 : good top s3) by exact Hg.
     rewrite (sim_fold rr rd Hsim top _ s3 ns h Hg3 H).
     unfold ext. simpl.
@@ -156,10 +157,10 @@ Section Sim.
   Qed.
 
   Lemma noflag_nested rd : noflag rd ->
-    forall h text lineno inline ho ns h' b,
-      den_nested env orc rd false h text lineno inline ho = Ok (ns, h', b) -> b = false.
+    forall ho0 h text lineno inline ho ns h' b,
+      den_nested env orc rd false ho0 h text lineno inline ho = Ok (ns, h', b) -> b = false.
   Proof.
-    intros Hnf h text lineno inline ho ns h' b H. unfold den_nested in H.
+    intros Hnf ho0 h text lineno inline ho ns h' b H. unfold den_nested in H.
     destruct (if inline then o_PI orc (s_env h) text else o_P orc (s_env h) (text ++ nl)).
     eapply noflag_fold; eauto.
   Qed.
@@ -206,11 +207,11 @@ Section Sim.
   Lemma sim_nested_parse rr rd : simrel rr rd -> noflag rd ->
     forall (s : st) lineno block off n r,
       inv s -> is_doc_or_section (node_tag n) = false ->
-      cb_nested_parse (den_mock_state env orc rd lineno) block off n (shr s) = Ok r ->
+      cb_nested_parse (den_mock_state env orc rd (hoff s) lineno) block off n (shr s) = Ok r ->
       cb_nested_parse (mock_state env orc rr lineno) block off n s = Ok (fst r, set_shr (snd r) s).
   Proof.
     intros Hsim Hnf s lineno block off n r Hinv Htag H. simpl in *.
-    destruct (den_nested env orc rd false (shr s) (join nl block) (lineno + N.of_nat off) false 0)
+    destruct (den_nested env orc rd false (hoff s) (shr s) (join nl block) (lineno + N.of_nat off) false 0)
       as [[[ms h'] b]|] eqn:E; [|discriminate].
     simpl in H. inversion H; subst r. simpl.
     assert (b = false) by (eapply noflag_nested; eauto). subst b.
@@ -218,17 +219,17 @@ Section Sim.
     intros s' Hinv' Hget Hshr Hh.
     apply (sim_nested rr rd Hsim false).
     - split; [exact Hinv'|]. intros _. exists n. split; assumption.
-    - rewrite Hshr. exact E.
+    - rewrite Hshr, Hh. exact E.
   Qed.
 
   Lemma sim_inline_text rr rd : simrel rr rd -> noflag rd ->
     forall (s : st) lineno text ln r,
       inv s ->
-      cb_inline_text (den_mock_state env orc rd lineno) text ln (shr s) = Ok r ->
+      cb_inline_text (den_mock_state env orc rd (hoff s) lineno) text ln (shr s) = Ok r ->
       cb_inline_text (mock_state env orc rr lineno) text ln s = Ok (fst r, set_shr (snd r) s).
   Proof.
     intros Hsim Hnf s lineno text ln r Hinv H. simpl in *.
-    destruct (den_nested env orc rd false (shr s) text ln true 0) as [[[ms h'] b]|] eqn:E;
+    destruct (den_nested env orc rd false (hoff s) (shr s) text ln true 0) as [[[ms h'] b]|] eqn:E;
       [|discriminate].
     simpl in H. inversion H; subst r. simpl.
     assert (b = false) by (eapply noflag_nested; eauto). subst b.
@@ -236,7 +237,7 @@ Section Sim.
     - reflexivity.
     - intros s' Hinv' Hget Hshr Hh. apply (sim_nested rr rd Hsim false).
       + split; [exact Hinv'|]. intros _. eexists. split; [exact Hget|reflexivity].
-      + rewrite Hshr. exact E.
+      + rewrite Hshr, Hh. exact E.
     - apply Hinv.
   Qed.
 
@@ -246,7 +247,7 @@ Section Sim.
   Lemma sim_adm rr rd : simrel rr rd -> noflag rd ->
     forall (s : st) position titled name args attrs content off r,
       inv s ->
-      o_adm_run orc shared (den_mock_state env orc rd position) titled name args attrs content off
+      o_adm_run orc shared (den_mock_state env orc rd (hoff s) position) titled name args attrs content off
                 position (shr s) = Ok r ->
       o_adm_run orc st (mock_state env orc rr position) titled name args attrs content off
                 position s = Ok (fst r, set_shr (snd r) s).
@@ -257,12 +258,12 @@ Section Sim.
     - inversion H; subst. simpl. destruct s; reflexivity.
     - destruct titled.
       + destruct args as [|a args']; [discriminate|].
-        destruct (cb_inline_text (den_mock_state env orc rd position) a position (shr s))
+        destruct (cb_inline_text (den_mock_state env orc rd (hoff s) position) a position (shr s))
           as [r0|] eqn:E0; [|discriminate].
         rewrite (sim_inline_text rr rd Hsim Hnf s position a position r0 Hinv E0).
         simpl in *.
         set (n1 := Node NAdm (name ++ attrs) (Some position) [] ) in *.
-        destruct (den_nested env orc rd false (snd r0) (join nl content)
+        destruct (den_nested env orc rd false (hoff s) (snd r0) (join nl content)
                     (position + N.of_nat off) false 0) as [[[ms h'] b]|] eqn:E1; [|discriminate].
         simpl in H. inversion H; subst r. simpl.
         pose proof (sim_nested_parse rr rd Hsim Hnf (set_shr (snd r0) s) position content off
@@ -273,7 +274,7 @@ Section Sim.
         destruct s; reflexivity.
       + simpl in *.
         set (n1 := Node NAdm (name ++ attrs) (Some position) []) in *.
-        destruct (den_nested env orc rd false (shr s) (join nl content)
+        destruct (den_nested env orc rd false (hoff s) (shr s) (join nl content)
                     (position + N.of_nat off) false 0) as [[[ms h'] b]|] eqn:E1; [|discriminate].
         simpl in H. inversion H; subst r. simpl.
         pose proof (sim_nested_parse rr rd Hsim Hnf s position content off n1
@@ -295,7 +296,7 @@ Section Sim.
     forall top (s : st) name first content mp pre ns h,
       good top s ->
       (do position <- token_line mp;
-       den_directive env orc rd top (shr s) name first content position pre) = Ok (ns, h, false) ->
+       den_directive env orc rd top (hoff s) (shr s) name first content position pre) = Ok (ns, h, false) ->
       render_directive env orc rr s name first content mp pre = ext s ns h.
   Proof.
     intros Hsim Hnf top s name first content mp pre ns h Hg H.
@@ -312,10 +313,10 @@ Section Sim.
     destruct (ext_props _ _ _ _ _ Hg Hs1) as [Hg1 [Hc1 [Hh1 [_ [Hshr1 _]]]]].
     destruct kind as [titled| |].
     - (* admonition *)
-      destruct (o_adm_run orc shared (den_mock_state env orc rd position) titled name (p_args p)
+      destruct (o_adm_run orc shared (den_mock_state env orc rd (hoff s) position) titled name (p_args p)
                   attrs (p_body p) (p_off p - pre)%nat position (shr s)) as [x|] eqn:E; [|discriminate].
       simpl in H.
-      rewrite <- Hshr1 in E.
+      rewrite <- Hshr1, <- Hh1 in E.
       rewrite (sim_adm rr rd Hsim Hnf s1 position titled name (p_args p) attrs (p_body p)
                  (p_off p - pre)%nat x (proj1 Hg1) E). simpl.
       destruct (fst x) as [out|lvl msg]; inversion H; subst ns h; simpl;
@@ -335,12 +336,13 @@ Section Sim.
       destruct (mem_str a (o_source orc :: s_incl (shr s))).
       { simpl in H. inversion H; subst ns h. simpl. rewrite extend_cur_ext.
         rewrite (ext_ext _ _ _ _ _ _ Hs1). rewrite Hshr1. reflexivity. }
-      destruct (den_nested env orc rd top (set_incl (s_incl (shr s) ++ [a]) (shr s))
+      destruct (den_nested env orc rd top (hoff s) (set_incl (s_incl (shr s) ++ [a]) (shr s))
                   (join nl (split_lines file)) (0 + 1) false iho)
         as [[[direct h'] b]|] eqn:E; [|discriminate].
       simpl in H. inversion H; subst ns h b.
       set (s1' := set_shr (set_incl (s_incl (shr s) ++ [a]) (shr s)) s1).
       assert (Hg1' : good top s1') by exact Hg1.
+      rewrite <- Hh1 in E. change (hoff s1) with (hoff s1') in E.
       rewrite (sim_nested rr rd Hsim top s1' _ _ _ _ direct h' Hg1' E).
       unfold s1'. rewrite ext_set_shr.
       destruct (ext_total s1 direct h' (proj1 Hg1)) as [s2 Hs2]. rewrite Hs2. simpl.
@@ -357,15 +359,15 @@ Section Sim.
   Qed.
 
   Lemma noflag_directive rd : noflag rd ->
-    forall h name first content position pre ns h' b,
-      den_directive env orc rd false h name first content position pre = Ok (ns, h', b) -> b = false.
+    forall ho h name first content position pre ns h' b,
+      den_directive env orc rd false ho h name first content position pre = Ok (ns, h', b) -> b = false.
   Proof.
-    intros Hnf h name first content position pre ns h' b H. unfold den_directive in H.
+    intros Hnf ho h name first content position pre ns h' b H. unfold den_directive in H.
     destruct (o_dir_lookup orc name) as [[kind cls]|]; [|inversion H; reflexivity].
     destruct (parse_directive_text cls first content) as [p|e]; [|inversion H; reflexivity].
     destruct (o_opt_validate orc name (p_optblock p)) as [attrs warns].
     destruct kind as [titled| |].
-    - destruct (o_adm_run orc shared (den_mock_state env orc rd position) titled name (p_args p)
+    - destruct (o_adm_run orc shared (den_mock_state env orc rd ho position) titled name (p_args p)
                   attrs (p_body p) (p_off p - pre)%nat position h) as [x|]; [|discriminate].
       simpl in H. destruct (fst x); inversion H; reflexivity.
     - unfold den_include in H.
@@ -374,7 +376,7 @@ Section Sim.
       destruct (o_include_opts orc (p_optblock p)) as [literal iho].
       destruct literal; [simpl in H; inversion H; reflexivity|].
       destruct (mem_str a (o_source orc :: s_incl h)); [simpl in H; inversion H; reflexivity|].
-      destruct (den_nested env orc rd false (set_incl (s_incl h ++ [a]) h)
+      destruct (den_nested env orc rd false ho (set_incl (s_incl h ++ [a]) h)
                   (join nl (split_lines file)) (0 + 1) false iho)
         as [[[direct h2] b2]|] eqn:E; [|discriminate].
       simpl in H. inversion H; subst. eapply noflag_nested; eauto.
@@ -437,13 +439,16 @@ Section Sim.
       destruct (note_explicit_target label (token_line_d mp 0) (shr s)) as [msgs h'].
       inversion H; subst. rewrite extend_cur_ext. simpl. apply ext_set_shr.
     - (* footnote definition *)
-      unfold mem_strs in *. destruct (mem_str label (s_names (shr s))).
+      unfold mem_strs in *. destruct (mem_str label (s_footdefs (shr s))).
       + inversion H; subst. apply extend_cur_ext.
-      + destruct (den_children env rd false (hoff s) (add_name label (shr s)) ks)
+      + destruct (note_explicit_target label (token_line_d mp 0) (add_footdef label (shr s)))
+          as [msgs h1].
+        destruct (den_children env rd false (hoff s) h1 ks)
           as [[[ms h'] b]|] eqn:E; [|discriminate].
         simpl in H. unfold wrap1 in H. simpl in H. inversion H; subst.
-        apply (sim_cont rr rd Hsim s (Node NFootnote label (line_of mp) []) ks ms h false
-                 (add_name label (shr s)) (proj1 Hg) eq_refl E eq_refl).
+        pose proof (sim_cont rr rd Hsim s (Node NFootnote label (line_of mp) msgs) ks ms h false
+                 h1 (proj1 Hg) eq_refl E eq_refl) as Hc.
+        cbn [add_kids] in Hc. exact Hc.
     - (* footnote reference *)
       inversion H; subst. rewrite extend_cur_ext. simpl. apply ext_set_shr.
     - (* fence *)
@@ -455,7 +460,7 @@ Section Sim.
           inversion H; subst. rewrite extend_cur_ext. simpl. apply ext_set_shr.
         * eapply sim_directive; eauto.
       + destruct colon.
-        * destruct (den_nested env orc rd false (shr s) content (token_line_d mp 0) false 0)
+        * destruct (den_nested env orc rd false (hoff s) (shr s) content (token_line_d mp 0) false 0)
             as [[[ms h'] b]|] eqn:E; [|discriminate].
           simpl in H. unfold wrap1 in H. simpl in H. inversion H; subst.
           change [Node NDiv name (line_of mp) ms]
@@ -463,7 +468,7 @@ Section Sim.
           apply with_node_ext; [apply Hg|].
           intros s' Hinv' Hget Hshr Hh. apply (sim_nested rr rd Hsim false).
           -- split; [exact Hinv'|]. intros _. eexists. split; [exact Hget|reflexivity].
-          -- rewrite Hshr. exact E.
+          -- rewrite Hshr, Hh. exact E.
         * inversion H; subst. apply extend_cur_ext.
     - (* substitution *)
       unfold render_substitution. unfold den_substitution in H.
@@ -473,7 +478,7 @@ Section Sim.
       destruct (existsb (fun r => mem_str r (s_subrefs (shr s))) (o_sub_names orc key)).
       { inversion H; subst. apply extend_cur_ext. }
       set (h1 := set_subrefs (add_all (o_sub_names orc key) (s_subrefs (shr s))) (shr s)) in *.
-      destruct (den_nested env orc rd top h1 rendered position
+      destruct (den_nested env orc rd top (hoff s) h1 rendered position
                   (inline && negb (o_is_directive_start orc rendered)) 0)
         as [[[ms h2] b]|] eqn:E; [|discriminate].
       simpl in H. inversion H; subst ns h b.
@@ -499,8 +504,9 @@ Section Sim.
     - destruct (den_children env rd false ho h ks) as [[[ms h2] b2]|] eqn:E; [|discriminate].
       simpl in H. inversion H; subst. eapply noflag_fold; eauto.
     - destruct (note_explicit_target label (token_line_d mp 0) h). inversion H; reflexivity.
-    - unfold mem_strs in H. destruct (mem_str label (s_names h)); [inversion H; reflexivity|].
-      destruct (den_children env rd false ho (add_name label h) ks) as [[[ms h2] b2]|] eqn:E;
+    - unfold mem_strs in H. destruct (mem_str label (s_footdefs h)); [inversion H; reflexivity|].
+      destruct (note_explicit_target label (token_line_d mp 0) (add_footdef label h)) as [msgs h1].
+      destruct (den_children env rd false ho h1 ks) as [[[ms h2] b2]|] eqn:E;
         [|discriminate].
       simpl in H. unfold wrap1 in H. simpl in H. inversion H; subst. eapply noflag_fold; eauto.
     - inversion H; reflexivity.
@@ -511,7 +517,7 @@ Section Sim.
         * destruct (token_line mp) as [position|]; [|discriminate]. simpl in H.
           eapply noflag_directive; eauto.
       + destruct colon; [|inversion H; reflexivity].
-        destruct (den_nested env orc rd false h content (token_line_d mp 0) false 0)
+        destruct (den_nested env orc rd false ho h content (token_line_d mp 0) false 0)
           as [[[ms h2] b2]|] eqn:E; [|discriminate].
         simpl in H. unfold wrap1 in H. simpl in H. inversion H; subst.
         eapply noflag_nested; eauto.
@@ -520,7 +526,7 @@ Section Sim.
       destruct (o_jinja orc key) as [rendered|]; [|inversion H; reflexivity].
       destruct (existsb (fun r => mem_str r (s_subrefs h)) (o_sub_names orc key));
         [inversion H; reflexivity|].
-      destruct (den_nested env orc rd false
+      destruct (den_nested env orc rd false ho
                   (set_subrefs (add_all (o_sub_names orc key) (s_subrefs h)) h) rendered position
                   (inline && negb (o_is_directive_start orc rendered)) 0)
         as [[[ms h2] b2]|] eqn:E; [|discriminate].
